@@ -16,6 +16,7 @@ import (
 
 	"github.com/hack-pad/hackpadfs"
 	"github.com/hack-pad/hackpadfs/keyvalue"
+	"github.com/hack-pad/hackpadfs/mem"
 )
 
 // C16: directory listings are complete, duplicate-free, ordered, and page correctly.
@@ -81,6 +82,16 @@ func c16cases(env *core.Env) []c16case {
 			}
 		}
 	}
+	// a directory that changes between two pages of one handle
+	for _, subj := range []string{"mem", "kvplain"} {
+		for _, n := range []int{4, 9, 130} {
+			for _, page := range []int{1, 2, 3, 64} {
+				for _, change := range []int{0, 1, 2} {
+					cs = append(cs, c16case{Subject: subj, N: n, Dir: "d", Pages: []int{page, change}, Name: "changing-between-pages"})
+				}
+			}
+		}
+	}
 	// random directories and page sequences
 	r := rand.New(rand.NewSource(env.Seed*5_000_011 + 16))
 	for i := 0; i < env.Pick(400, 8000); i++ {
@@ -115,7 +126,7 @@ func init() {
 		Level: "exploration",
 		Rule: "directories with 0,1,2,3,10,127,128,129,256,300,1200 children of mixed kinds (names incl. upper/lower case, '_', '^', dots, spaces, backslash, non-ASCII; names sharing letters with the mount path) (ground truth = the children the harness created) are presented through mem, keyvalue over a plain Store, mount (children that are mount points), a file system mounted at a two-element mount point, a Sub view, a Sub view of a directory above mount points, the cache (full and minimal store), the tar FS (default and minimal destination) and os.FS; the by-name listing must contain each child once, sorted, agreeing with Stat; a directory handle is read with page-size sequences (1,2,N-1,N,N+1,10^9, MaxInt and MinInt also on a handle that has been read before, mixed with 0 and -1, random) and checked against the fs.ReadDirFile contract; listing a regular file must fail with ErrNotDir; a handle over a plain store is paged while the store fails one Get: after the failing call, paging on must deliver every child not delivered yet, none twice. " +
 			"Non-trivial: a paged session over a directory with >=2 children that took >=2 pages; distinct by (subject, size, page sequence)",
-		Assumptions: []string{"directories are not mutated between pages", "for a child that is a mount point only name and kind are compared"},
+		Assumptions: []string{"directories are not mutated between pages (except in the part that removes returned entries and creates new names after the first page)", "for a child that is a mount point only name and kind are compared"},
 		NumCases:    func(env *core.Env) int { return len(c16cases(env)) },
 		Batch:       40,
 		Run:         c16run,
@@ -250,11 +261,120 @@ func c16faultPaging(cs c16case, res *core.CaseResult) {
 	}
 }
 
+// c16changing: one handle pages through a directory of N files; after the first page the directory changes (0: the entries
+// already returned are removed; 1: a name that sorts before all and one that sorts after all are created; 2: both). Paging
+// on to the end, every entry that existed during the whole listing has been returned exactly once and none twice (what
+// readdir promises); entries removed or created meanwhile may or may not appear.
+func c16changing(cs c16case, res *core.CaseResult) {
+	var fsys hackpadfs.FS
+	var err error
+	if cs.Subject == "mem" {
+		fsys, err = mem.NewFS()
+	} else {
+		fsys, err = keyvalue.NewFS(kvs.NewPlain())
+	}
+	if err != nil {
+		res.Inconclusive = err.Error()
+		return
+	}
+	page, change := cs.Pages[0], cs.Pages[1]
+	stable := map[string]bool{}
+	_ = hackpadfs.Mkdir(fsys, "d", 0o755)
+	for i := 0; i < cs.N; i++ {
+		name := fmt.Sprintf("k%03d", i)
+		if err := hackpadfs.WriteFullFile(fsys, "d/"+name, []byte("x"), 0o644); err != nil {
+			res.Inconclusive = err.Error()
+			return
+		}
+		stable[name] = true
+	}
+	dir, err := fsys.Open("d")
+	if err != nil {
+		res.Inconclusive = err.Error()
+		return
+	}
+	defer func() { _ = dir.Close() }()
+	seen := map[string]int{}
+	wit := map[string]any{"case": cs}
+	first, err := hackpadfs.ReadDirFile(dir, page)
+	if err != nil && err != io.EOF {
+		res.Violate(fmt.Sprintf("C16|%s|changing|first-page-failed", cs.Subject), fmt.Sprintf("the first ReadDir(%d) on a directory of %d files failed: %v", page, cs.N, err), wit)
+		return
+	}
+	for _, e := range first {
+		seen[e.Name()]++
+	}
+	what := ""
+	if change == 0 || change == 2 {
+		for _, e := range first {
+			if rerr := hackpadfs.Remove(fsys, "d/"+e.Name()); rerr == nil {
+				delete(stable, e.Name())
+			}
+		}
+		what = "the entries of the first page were removed"
+	}
+	if change == 1 || change == 2 {
+		_ = hackpadfs.WriteFullFile(fsys, "d/a-new", []byte("x"), 0o644)
+		_ = hackpadfs.WriteFullFile(fsys, "d/z-new", []byte("x"), 0o644)
+		if what != "" {
+			what += " and "
+		}
+		what += "two names (one sorting first, one last) were created"
+	}
+	res.Evals = 1
+	ended := false
+	for i := 0; i < 2*cs.N+10; i++ {
+		p, err := hackpadfs.ReadDirFile(dir, page)
+		res.Count("pages_read", 1)
+		for _, e := range p {
+			seen[e.Name()]++
+		}
+		if err == io.EOF || (err == nil && len(p) == 0) {
+			ended = true
+			break
+		}
+		if err != nil {
+			res.Violate(fmt.Sprintf("C16|%s|changing|page-failed", cs.Subject), fmt.Sprintf("after the first ReadDir(%d) on a directory of %d files %s; a later page failed: %v", page, cs.N, what, err), wit)
+			return
+		}
+	}
+	res.Count("listings_of_changing_directories", 1)
+	res.Nontrivial = len(first) > 0 && len(first) < cs.N
+	if !ended {
+		res.Violate(fmt.Sprintf("C16|%s|changing|no-end", cs.Subject), fmt.Sprintf("after the first ReadDir(%d) on a directory of %d files %s; %d more pages did not reach the end", page, cs.N, what, 2*cs.N+10), wit)
+		return
+	}
+	var missing, twice []string
+	for name := range stable {
+		if seen[name] == 0 {
+			missing = append(missing, name)
+		}
+	}
+	for name, k := range seen {
+		if k > 1 {
+			twice = append(twice, name)
+		}
+	}
+	sort.Strings(missing)
+	sort.Strings(twice)
+	if len(missing) > 0 {
+		res.Violate(fmt.Sprintf("C16|%s|changing|missing", cs.Subject), fmt.Sprintf("after the first ReadDir(%d) on a directory of %d files %s; paging on to the end never returned %d entries that were there all the time (%s ...)", page, cs.N, what, len(missing), missing[0]), wit)
+	}
+	if len(twice) > 0 {
+		res.Violate(fmt.Sprintf("C16|%s|changing|twice", cs.Subject), fmt.Sprintf("after the first ReadDir(%d) on a directory of %d files %s; paging on to the end returned %d entries twice (%s ...)", page, cs.N, what, len(twice), twice[0]), wit)
+	}
+}
+
 func c16run(env *core.Env, idx int) core.CaseResult {
 	var res core.CaseResult
 	cs := c16cases(env)[idx]
 	if cs.Name == "fault-paging" {
 		c16faultPaging(cs, &res)
+		res.Key = core.Hash(cs)
+		return res
+	}
+	if cs.Name == "changing-between-pages" {
+		c16changing(cs, &res)
 		res.Key = core.Hash(cs)
 		return res
 	}
